@@ -37,6 +37,10 @@ func run(seed int64, n int, dir string, _ []string) {
 	dml.DiscardCorpus(g, o, root)
 	// corpus: COMMIT fails at the k-th context check -> shorter data -> COMMIT again, files against a control run
 	dml.CommitCorpus(g, o, root)
+	// corpus: cancellation at every context check incl. those of the LOADING of 40- and 100-record tables
+	dml.LoadCancelCorpus(g, o, root)
+	// corpus: CREATE TABLE failing while tables are open (case-insensitive name collision, existing file, …)
+	dml.CreateCorpus(g, o, root)
 
 	stmts := 0
 	scanned := false
@@ -151,6 +155,7 @@ func run(seed int64, n int, dir string, _ []string) {
 				if out.Err == nil {
 					r.TwinExec(st)
 				}
+				r.AfterStdin(out)
 				if len(out.Failed) > 0 {
 					// one defect, one report: drop the rest of this sequence
 					abandon = true
